@@ -241,6 +241,65 @@ func TestCheck(t *testing.T) {
 	})
 	r.Exhaustive("for every year 0..9998: all (from, to, probe) triples over the seven dates around its year end and its end of February, plus one-sided filters")
 
+	r.Phase("A3: every (from, to) pair over all days of a leap year and the following year (both bounds and one-sided), probes at the bounds' neighbours and at the year's corners", func() {
+		var days []YMD
+		for _, y := range []int64{2024, 2025} {
+			for m := 1; m <= 12; m++ {
+				for d := 1; d <= ref.DaysIn(y, m); d++ {
+					days = append(days, YMD{y, m, d})
+				}
+			}
+		}
+		nd := int64(len(days))
+		corners := []YMD{{2024, 1, 1}, {2024, 1, 2}, {2024, 2, 1}, {2024, 2, 2}, {2024, 2, 29}, {2024, 12, 31}, {2025, 1, 1}, {2025, 2, 1}, {2025, 2, 2}, {2025, 12, 31}, {2023, 12, 31}, {2026, 1, 1}}
+		r.Parallel(nd*nd, nd, func(w *vkit.W, lo, hi int64) {
+			for k := lo; k < hi; k++ {
+				f, t := days[k/nd], days[k%nd]
+				probes := append([]YMD{}, corners...)
+				for _, b := range []YMD{f, t} {
+					for _, dd := range []int64{-1, 0, 1} {
+						y, m, d := ref.CivilFromDays(b.ord() + dd)
+						probes = append(probes, YMD{y, m, d})
+					}
+				}
+				c := Case{From: &f, To: &t, Probes: probes, Scribble: days[(k*31)%nd]}
+				judge(c, w)
+				w.EvalN(int64(len(probes)), int64(len(probes)))
+			}
+		})
+	})
+	r.Exhaustive("all (from, to) pairs over the 731 days of 2024-2025 with probes at the bounds' neighbours and the years' corners")
+
+	r.Phase("A4: extreme years (beyond 9999, negative, near the int32 limits) as bounds and probes, all four shapes", func() {
+		ys := []int64{-2147483647, -2000000000, -1500000000, -1000000000, -999999999, -20000, -10000, -9999, -401, -400, -1, 0, 1, 9999, 10000, 10001, 20000, 999999999, 1000000000, 1500000000, 2000000000, 2147483646}
+		var pts []YMD
+		for _, y := range ys {
+			pts = append(pts, YMD{y, 1, 1}, YMD{y, 12, 31}, YMD{y, 6, 15})
+		}
+		np := int64(len(pts))
+		r.Parallel(np*np, np, func(w *vkit.W, lo, hi int64) {
+			for k := lo; k < hi; k++ {
+				f, t := pts[k/np], pts[k%np]
+				for shape := 1; shape <= 3; shape++ {
+					c := Case{Probes: pts, Scribble: pts[(k*7)%np]}
+					if shape&1 != 0 {
+						ff := f
+						c.From = &ff
+					}
+					if shape&2 != 0 {
+						tt := t
+						c.To = &tt
+					}
+					if shape != 3 && k%np != 0 && shape == 1 || shape == 2 && k/np != 0 {
+						continue
+					}
+					judge(c, w)
+					w.EvalN(np, np)
+				}
+			}
+		})
+	})
+
 	nRand := int64(r.Pick(200000, 20000000))
 	r.Phase(fmt.Sprintf("B: %d seeded random triples over years 0000-9999", nRand), func() {
 		r.Parallel(nRand, 4096, func(w *vkit.W, lo, hi int64) {
